@@ -199,15 +199,19 @@ func (borderRadius *borderRadiusTracker) compactRules(rules []css_ast.Rule, keyR
 
 	// Remove all of the existing declarations
 	var minLoc logger.Loc
+	var lastRuleIndex uint32
 	for i, corner := range borderRadius.corners {
 		if loc := rules[corner.ruleIndex].Loc; i == 0 || loc.Start < minLoc.Start {
 			minLoc = loc
+		}
+		if corner.ruleIndex > lastRuleIndex {
+			lastRuleIndex = corner.ruleIndex
 		}
 		rules[corner.ruleIndex] = css_ast.Rule{}
 	}
 
 	// Insert the combined declaration where the last rule was
-	rules[borderRadius.corners[3].ruleIndex] = css_ast.Rule{Loc: minLoc, Data: &css_ast.RDeclaration{
+	rules[lastRuleIndex] = css_ast.Rule{Loc: minLoc, Data: &css_ast.RDeclaration{
 		Key:       css_ast.DBorderRadius,
 		KeyText:   "border-radius",
 		Value:     tokens,
